@@ -6,6 +6,8 @@ import Xo.Drv.BufPrim
 import Xo.Drv.Lay
 import Xo.Drv.Heap
 import Xo.Drv.KCall
+import Xo.Drv.Hybrid
+import Xo.Drv.DictForm
 /-! `lake env lean --run Driver.lean <component>` : stdin ops → stdout results -/
 def main (args : List String) : IO UInt32 := do
   let i ← IO.getStdin
@@ -18,5 +20,7 @@ def main (args : List String) : IO UInt32 := do
   | ["lay"] => Drv.loop i o Drv.LayD.step Drv.LayD.init; return 0
   | ["heap"] => Drv.loop i o Drv.HeapD.step Drv.HeapD.init; return 0
   | ["kcall"] => Drv.loop i o Drv.KCallD.step (); return 0
+  | ["hyb"] => Drv.loop i o Drv.HybD.step Drv.HybD.init; return 0
+  | ["dict"] => Drv.loop i o Drv.DictD.step {}; return 0
   | ["topo"] => Drv.loop i o Drv.TopoD.step (); return 0
   | _ => IO.eprintln "usage: Driver.lean <component>"; return 2
